@@ -163,6 +163,7 @@ def generate(seed):
         xfs.append((nid, rng.randrange(len(fonts)), rng.choice([None, None, '1'])))
     sheets = []
     dnames = []
+    all_tables = []
     for si, name in enumerate(names):
         cells = {}
         xml_rows = {}
@@ -176,7 +177,7 @@ def generate(seed):
             ref = col(c) + str(r)
             s_idx = rng.randrange(len(xfs)) if rng.random() < 0.4 else None
             s_attr = ' s="%d"' % s_idx if s_idx else ''
-            kind = rng.choice(['s', 's', 's-rich', 'n', 'n-absent', 'b', 'e', 'str', 'inlineStr', 'inlineStr-rich', 'blank-styled'])
+            kind = rng.choice(['s', 's', 's-rich', 'n', 'n-absent', 'b', 'e', 'str', 'inlineStr', 'inlineStr-rich', 'blank-styled', 'f-b', 'f-e', 'f-n'])
             m = {'k': '', 'v': '', 'f': ''}
             if kind in ('s', 's-rich'):
                 t = rng.choice(TEXTS)
@@ -203,6 +204,21 @@ def generate(seed):
                 x = '<c r="%s"%s t="str"><f>%s</f><v>%s</v></c>' % (ref, s_attr, escape(render_formula(f)), text_xml(rng, t))
                 m.update(k='text', v=t, f=render_formula(f))
                 features.add('t=str')
+            elif kind in ('f-b', 'f-e', 'f-n'):
+                # a formula whose cached result is a boolean, an error or a number
+                f = gen_formula(rng, c, r, plain_names)
+                if kind == 'f-b':
+                    v, k, tattr = rng.choice(['0', '1']), 'bool', ' t="b"'
+                    mv = 'TRUE' if v == '1' else 'FALSE'
+                elif kind == 'f-e':
+                    v, k, tattr = rng.choice(ERRORS), 'error', ' t="e"'
+                    mv = v
+                else:
+                    v, k, tattr = rng.choice(['0', '12.5', '-3', '1E-3']), 'number', rng.choice(['', ' t="n"'])
+                    mv = v
+                x = '<c r="%s"%s%s><f>%s</f><v>%s</v></c>' % (ref, s_attr, tattr, escape(render_formula(f)), v)
+                m.update(k=k, v=mv, f=render_formula(f))
+                features.add('formula-cached-' + k)
             elif kind in ('inlineStr', 'inlineStr-rich'):
                 t = rng.choice([t for t in TEXTS if t])
                 if kind == 'inlineStr-rich':
@@ -268,6 +284,18 @@ def generate(seed):
                         ftag = '<f>%s</f>' % escape(text)
                     xml_rows.setdefault(r, {})[c] = '<c r="%s">%s<v>%s</v></c>' % (ref, ftag, val)
                     cells[(c, r)] = {'k': 'number', 'v': val, 'f': text}
+        # a table whose column names need entity escaping in the tableColumn attributes (header cells carry the same text)
+        tables = []
+        if rng.random() < 0.35:
+            ncols = rng.randint(1, 4)
+            tc, tr, th = 40, rng.randint(45, 50), rng.randint(1, 3)
+            colnames = rng.sample(['A&B', '<tag>', 'q"x', "it's", 'é日本', 'Col 1', 'a>b', '100%'], ncols)
+            for j, cn in enumerate(colnames):
+                i = shared(cn)
+                xml_rows.setdefault(tr, {})[tc + j] = '<c r="%s%d" t="s"><v>%d</v></c>' % (col(tc + j), tr, i)
+                cells[(tc + j, tr)] = {'k': 'text', 'v': cn, 'f': ''}
+            tables.append(('Tbl_%d_%d' % (si + 1, seed % 1000), '%s%d:%s%d' % (col(tc), tr, col(tc + ncols - 1), tr + th), colnames))
+            features.add('table')
         rows_xml = []
         for r in sorted(xml_rows):
             cs = xml_rows[r]
@@ -301,10 +329,17 @@ def generate(seed):
         if rng.random() < 0.5:
             cols = '<cols><col min="2" max="4" width="%s" customWidth="1"/><col min="7" max="7" width="22.5" hidden="1" customWidth="1"/></cols>' % rng.choice(['9.5', '15', '30.25'])
             features.add('cols-span')
-        ws = ('<?xml version="1.0" encoding="UTF-8" standalone="yes"?>\n<worksheet xmlns="%s" xmlns:r="%s"><sheetViews><sheetView workbookViewId="0"/></sheetViews><sheetFormatPr defaultRowHeight="15"/>%s<sheetData>%s</sheetData>%s%s</worksheet>'
+        table_parts = ''
+        for t in tables:
+            all_tables.append(t)
+            rels.append('<Relationship Id="rId%d" Type="%s/table" Target="../tables/table%d.xml"/>' % (100 + len(all_tables), RNS, len(all_tables)))
+            table_parts += '<tablePart r:id="rId%d"/>' % (100 + len(all_tables))
+        if table_parts:
+            table_parts = '<tableParts count="%d">%s</tableParts>' % (len(tables), table_parts)
+        ws = ('<?xml version="1.0" encoding="UTF-8" standalone="yes"?>\n<worksheet xmlns="%s" xmlns:r="%s"><sheetViews><sheetView workbookViewId="0"/></sheetViews><sheetFormatPr defaultRowHeight="15"/>%s<sheetData>%s</sheetData>%s%s%s</worksheet>'
               % (NS, RNS, cols, ''.join(rows_xml), ('<mergeCells count="%d">%s</mergeCells>' % (len(merges), ''.join('<mergeCell ref="%s"/>' % m for m in merges))) if merges else '',
-                 ('<hyperlinks>%s</hyperlinks>' % ''.join(hl)) if hl else ''))
-        sheets.append({'name': name, 'xml': ws, 'rels': rels, 'cells': {col(c) + str(r): v for (c, r), v in cells.items() if v}, 'links': links, 'merges': merges})
+                 ('<hyperlinks>%s</hyperlinks>' % ''.join(hl)) if hl else '', table_parts))
+        sheets.append({'name': name, 'xml': ws, 'rels': rels, 'cells': {col(c) + str(r): v for (c, r), v in cells.items() if v}, 'links': links, 'merges': merges, 'tables': tables})
         if rng.random() < 0.5:
             q = "'%s'" % name.replace("'", "''") if not name.isalnum() or name == 'R1' else name
             dnames.append(('Name_%d' % si, '%s!$A$1:$B$%d' % (q, si + 2), None))
@@ -320,6 +355,8 @@ def generate(seed):
           '<Override PartName="/xl/sharedStrings.xml" ContentType="application/vnd.openxmlformats-officedocument.spreadsheetml.sharedStrings+xml"/>']
     for i in range(len(sheets)):
         ct.append('<Override PartName="/xl/worksheets/sheet%d.xml" ContentType="application/vnd.openxmlformats-officedocument.spreadsheetml.worksheet+xml"/>' % (i + 1))
+    for i in range(len(all_tables)):
+        ct.append('<Override PartName="/xl/tables/table%d.xml" ContentType="application/vnd.openxmlformats-officedocument.spreadsheetml.table+xml"/>' % (i + 1))
     ct.append('</Types>')
     z.writestr('[Content_Types].xml', ''.join(ct))
     z.writestr('_rels/.rels', '<?xml version="1.0" encoding="UTF-8" standalone="yes"?>\n<Relationships xmlns="http://schemas.openxmlformats.org/package/2006/relationships"><Relationship Id="rId1" Type="%s/officeDocument" Target="xl/workbook.xml"/></Relationships>' % RNS)
@@ -331,6 +368,9 @@ def generate(seed):
         z.writestr('xl/worksheets/sheet%d.xml' % (i + 1), s['xml'])
         if s['rels']:
             z.writestr('xl/worksheets/_rels/sheet%d.xml.rels' % (i + 1), '<?xml version="1.0" encoding="UTF-8" standalone="yes"?>\n<Relationships xmlns="http://schemas.openxmlformats.org/package/2006/relationships">%s</Relationships>' % ''.join(s['rels']))
+    for i, (tname, tref, tcols) in enumerate(all_tables):
+        z.writestr('xl/tables/table%d.xml' % (i + 1), '<?xml version="1.0" encoding="UTF-8" standalone="yes"?>\n<table xmlns="%s" id="%d" name="%s" displayName="%s" ref="%s" totalsRowShown="0"><autoFilter ref="%s"/><tableColumns count="%d">%s</tableColumns><tableStyleInfo name="TableStyleMedium2" showFirstColumn="0" showLastColumn="0" showRowStripes="1" showColumnStripes="0"/></table>'
+                   % (NS, i + 1, tname, tname, tref, tref, len(tcols), ''.join('<tableColumn id="%d" name="%s"/>' % (j + 1, attr(cn)) for j, cn in enumerate(tcols))))
     wb.append('</sheets>')
     if dnames:
         wb.append('<definedNames>%s</definedNames>' % ''.join('<definedName name="%s"%s>%s</definedName>' % (attr(n), ' localSheetId="%d"' % l if l is not None else '', escape(a)) for n, a, l in dnames))
@@ -348,7 +388,7 @@ def generate(seed):
     st.append('<cellStyles count="1"><cellStyle name="Normal" xfId="0" builtinId="0"/></cellStyles></styleSheet>')
     z.writestr('xl/styles.xml', ''.join(st))
     z.close()
-    intent = {'seed': seed, 'features': sorted(features), 'sheets': [{'name': s['name'], 'cells': s['cells'], 'links': s['links'], 'merges': s['merges']} for s in sheets],
+    intent = {'seed': seed, 'features': sorted(features), 'sheets': [{'name': s['name'], 'cells': s['cells'], 'links': s['links'], 'merges': s['merges'], 'tables': s['tables']} for s in sheets],
               'names': [[n, a, l] for n, a, l in dnames]}
     return buf.getvalue(), intent
 
